@@ -56,7 +56,9 @@ def variants(p, rng, r0):
             vs.append(("subset", a))
     n = rng.randint(2, 4)
     for k in range(1, n + 1):
+        # count: and hash: shards of the same index one after the other (in a warm directory the second must not be served from the first)
         vs.append((f"partition", dict(base, partition=f"count:{k}/{n}")))
+        vs.append((f"hpartition", dict(base, partition=f"hash:{k}/{n}")))
     dirs = sorted({(path.rsplit("/", 1)[0] if "/" in path else ".") for path in p["files"]})
     for d in dirs:
         vs.append(("local", dict(base, local=d)))
@@ -77,7 +79,7 @@ def one_project(job):
     if warm:
         # subsets and partitions run in the build directory of (and after) the unrestricted run: "whether laze was asked for all builds,
         # for a subset ... or a partition" must not depend on what an earlier, wider run left in the cache
-        seq = [(kind, a) for kind, a in vs if kind in ("subset", "partition")]
+        seq = [(kind, a) for kind, a in vs if kind in ("subset", "partition", "hpartition")]
         try:
             rs = projrun.run_impl_seq(p0, [p0["args"]] + [a for _, a in seq])
             for (kind, a), r in zip(seq, rs[1:]):
@@ -105,6 +107,7 @@ def judge(chk, p0, r0, vs, n):
         return
     t0 = tuples(r0)
     part_tuples = []
+    hpart_tuples = []
     nt = False
     warm = any(kind.endswith("@warm") for kind, a, r in vs)
     t0_part = t0
@@ -147,6 +150,8 @@ def judge(chk, p0, r0, vs, n):
                 nt = True
         if kind == "partition":
             part_tuples.append(tuples(r))
+        if kind == "hpartition":
+            hpart_tuples.append(tuples(r))
         if kind == "local":
             mods_here = {b["app"] for b in r["dump"]}
             if c:
@@ -158,6 +163,14 @@ def judge(chk, p0, r0, vs, n):
             return
         if sorted(flat) != t0_part:
             chk.fail_oracle("indep:partitions-not-covering", f"union of count:k/{n} partitions {sorted(flat)} != unpartitioned {t0_part}", {"project": p0})
+            return
+    if hpart_tuples:
+        flat = [t for pt in hpart_tuples for t in pt]
+        if len(flat) != len(set(flat)):
+            chk.fail_oracle("indep:hash-partitions-overlap", f"hash:1..{n}/{n} partitions overlap: {hpart_tuples}", {"project": p0})
+            return
+        if sorted(flat) != t0_part:
+            chk.fail_oracle("indep:hash-partitions-not-covering", f"union of hash:k/{n} partitions {sorted(flat)} != unpartitioned {t0_part}", {"project": p0})
             return
     # local runs: union over directories = all apps
     loc = [tuples(r) for kind, a, r in vs if kind == "local" and projrun.impl_status(r) == "ok"]
